@@ -51,15 +51,20 @@ Open(c, d) == /\ ~IsOpen(c) /\ order' = Append(order, c) /\ pend' = [pend EXCEPT
               /\ DiskOK(d) /\ Disk(d) /\ UNCHANGED <<ackC, ackX>>
 Send(c, r, d) == /\ IsOpen(c) /\ pend' = [pend EXCEPT ![c] = Append(@, r)]
                  /\ DiskOK(d) /\ Disk(d) /\ UNCHANGED <<order, ackC, ackX, mustTell>>
+(* a connection that comes to the front with nothing pending never had to wait in any way its peer could notice: nobody owes *)
+(* it the "wait" message any more                                                                                          *)
+Relieved(o) == IF o # <<>> /\ pend[Head(o)] = <<>> THEN mustTell \ {Head(o)} ELSE mustTell
 PeerClose(c, d) == /\ order' = Remove(order, c)
-                   /\ DiskOK(d) /\ Disk(d) /\ UNCHANGED <<pend, ackC, ackX, mustTell>>
+                   /\ mustTell' = Relieved(Remove(order, c))
+                   /\ DiskOK(d) /\ Disk(d) /\ UNCHANGED <<pend, ackC, ackX>>
 Quiet(d) == DiskOK(d) /\ Disk(d) /\ UNCHANGED <<order, pend, ackC, ackX, mustTell>>     \* Timer, Tick
 (* the control message: "wait until the earlier connection has closed" *)
 Told(c, d) == DiskOK(d) /\ Disk(d) /\ mustTell' = mustTell \ {c} /\ UNCHANGED <<order, pend, ackC, ackX>>
 
 (* ---- server-visible ---- *)
 ServerClose(c, d) == /\ order' = Remove(order, c)
-                     /\ DiskOK(d) /\ Disk(d) /\ UNCHANGED <<pend, ackC, ackX, mustTell>>
+                     /\ mustTell' = Relieved(Remove(order, c))
+                     /\ DiskOK(d) /\ Disk(d) /\ UNCHANGED <<pend, ackC, ackX>>
 
 (* the init echo and control messages are not request replies: any connection may get them at once *)
 InitEcho(c, rep, d) == /\ rep \in 0..2 /\ rep <= d.st
